@@ -42,17 +42,22 @@ fn menu() -> Vec<Action> {
     vec![Action::Drop, Action::Dup(1000), Action::Delay(3)]
 }
 
-/// quick: the 3-wise covering subset of the grid (every combination of values of any three factors
-/// occurs), thorough: the full grid; deviation bound k <= 2 on 14-byte transfers (thorough: also on
-/// 5 KB transfers), k <= 1 elsewhere
+/// quick: the 3-wise covering subsets of the echo grid and of the sink grid (every combination of
+/// values of any three factors occurs), thorough: both full grids; deviation bound k <= 2 on 14-byte
+/// echo transfers (thorough: also on 5 KB echo transfers), k <= 1 elsewhere (all sink scenarios)
 fn cases(tier: Tier) -> Vec<Case> {
-    let scns = match tier {
-        Tier::Quick => covering_subset(3),
+    let mut scns = match tier {
+        Tier::Quick => covering_subset(full_grid(), 3),
         Tier::Thorough => full_grid(),
     };
+    // the sink scenarios (connection window decoupled from the stream windows, receiver only reads)
+    scns.extend(match tier {
+        Tier::Quick => covering_subset(sink_grid(), 3),
+        Tier::Thorough => sink_grid(),
+    });
     scns.into_iter()
         .map(|scn| {
-            let k = if scn.size <= 14 || (tier == Tier::Thorough && scn.size == 5 * 1024) { 2 } else { 1 };
+            let k = if scn.mode == Mode::Echo && (scn.size <= 14 || (tier == Tier::Thorough && scn.size == 5 * 1024)) { 2 } else { 1 };
             Case { scn, k, menu: menu() }
         })
         .collect()
@@ -418,7 +423,7 @@ fn master(property: &str, out_path: &str) {
     if g.capped {
         rep.cap_hit = Some(format!("wall cap {:.0}s hit; the queue was cut", wall));
     }
-    rep.completed_bound = Some(format!("{} scenarios ({}); deviation bound k per scenario as listed in x_cases ({}); executions per k {:?}", cases.len(), tier.pick("3-wise covering subset of the 176-scenario grid", "full grid"), tier.pick("k<=2 on 14-byte transfers, k<=1 elsewhere", "k<=2 on 14-byte and 5 KB transfers, k<=1 elsewhere"), g.per_k));
+    rep.completed_bound = Some(format!("{} scenarios ({}); deviation bound k per scenario as listed in x_cases ({}); executions per k {:?}", cases.len(), tier.pick("3-wise covering subsets of the 176-scenario echo grid and of the 64-scenario sink grid", "full echo grid + full sink grid"), tier.pick("k<=2 on 14-byte echo transfers, k<=1 elsewhere", "k<=2 on 14-byte and 5 KB echo transfers, k<=1 elsewhere"), g.per_k));
     rep.samples = g.samples.clone();
     let mut case_list = Vec::new();
     for (i, c) in cases.iter().enumerate() {
@@ -466,7 +471,7 @@ fn master(property: &str, out_path: &str) {
 }
 
 fn find_scenario(name: &str) -> Option<Scenario> {
-    full_grid().into_iter().find(|s| s.name == name)
+    full_grid().into_iter().chain(sink_grid()).find(|s| s.name == name)
 }
 
 fn replay_main(path: &str) {
@@ -516,7 +521,7 @@ fn probe_main(args: &[String]) {
     };
     if std::env::var("QUICHEMC_CONTROL").is_ok() {
         // same script, both endpoints s2n-quic
-        scn = Scenario::new(Role::Control, scn.s2n_window, scn.quiche_window, scn.stream_limit, scn.mds, scn.size);
+        scn = scn.control();
     }
     let sched = args.get(2).and_then(|s| parse_schedule(s)).unwrap_or_default();
     let certs = cert_files();
@@ -533,6 +538,9 @@ fn probe_main(args: &[String]) {
             }
             for a in &r.app {
                 println!("  app t={} ep={} {:?}", a.t, a.ep, a.ev);
+            }
+            for f in &r.frames {
+                println!("  frame t={} ep={} {} {}", f.0, f.1, f.2, f.3);
             }
             for c in &r.closed {
                 println!("  closed {:?}", c);
